@@ -347,14 +347,23 @@ class Ctx:
         self.solver.pop()
         return r == z3.unsat
 
-    def choose(self, conds):
-        """Fork over mutually exclusive, jointly exhaustive alternatives (list of Bool terms / bools).
-        Returns the chosen index and assumes its condition."""
+    def choose(self, conds, labels=None):
+        """Fork over alternatives (list of Bool terms / bools).  Returns the chosen index and assumes its
+        condition.  `labels` (stable names of the alternatives) make re-execution robust when the *set* of
+        alternatives differs between executions (solver time-outs during pruning are not deterministic)."""
         conds = [c if isinstance(c, bool) else simp(c) for c in conds]
         idx = len(self.trail)
         if idx < len(self.prefix):
             k = self.prefix[idx]
-            self.trail.append(k)
+            if labels is not None:
+                if k not in labels:
+                    raise PathKilled()      # the alternative was pruned (proved infeasible) in this execution
+                self.trail.append(k)
+                k = labels.index(k)
+            else:
+                if not isinstance(k, int) or k >= len(conds):
+                    raise PathKilled()
+                self.trail.append(k)
             self.add(conds[k])
             return k
         # syntactic shortcuts
@@ -370,7 +379,7 @@ class Ctx:
             else:
                 live.append(i)
         definite = [i for i in live if (conds[i] is True or (not isinstance(conds[i], bool) and z3.is_true(conds[i])))]
-        if definite:
+        if definite and labels is None:
             k = definite[0]
             self.trail.append(k)
             return k
@@ -382,9 +391,9 @@ class Ctx:
             raise PathKilled()
         k = feas[0]
         for j in feas[1:]:
-            self.worklist.append(self.trail + [j])
+            self.worklist.append(self.trail + [labels[j] if labels is not None else j])
             self.stats["forks"] += 1
-        self.trail.append(k)
+        self.trail.append(labels[k] if labels is not None else k)
         self.add(conds[k])
         return k
 
